@@ -780,6 +780,17 @@ class ApproxGaussian(object):
                 if x2low - x2 < tol:
                     break
 
+            # the estimator neglects higher-order terms, so verify the actual
+            # max. deviation of the parabola on [x2, x1] and move x2 if needed
+            def maxdev(x2):
+                t = np.linspace(0, 1, 201)
+                y1, yc, y2 = g(x1), g((x1 + x2) / 2), g(x2)
+                p = y2 + (4 * yc - 3 * y2 - y1) * t + 2 * (y2 - 2 * yc + y1) * t**2
+                return np.abs(p - g(x2 + (x1 - x2) * t)).max()
+
+            while x2 < x1 and maxdev(x2) > tol:
+                x2 += (x1 - x2) / 200
+
             # make sure that outer parabola doesn't go below 0
             if len(xs) == 1 and g(x2) > 4 * g((x1 + x2) / 2):
                 # use node point that matches the limiting parabola (x - x1)^2
